@@ -308,7 +308,7 @@ def fd_check(c, sub, items, x, h, symmetric=None, dofs=None):
     return K
 
 
-def item_history(c, sub, make_item, field, states, depth=3):
+def item_history(c, sub, make_item, field, states, depth=3, start=None):
     """call histories on ONE item object: every sequence (<= depth) over {vector, matrix} x {field at state A, field at state B,
     no field argument}; each returned vector / matrix must equal that of a FRESH item evaluated at the state the item was last
     given (items are functions of the state, nothing about earlier states may be remembered).  `states`: dict name -> values
@@ -318,13 +318,15 @@ def item_history(c, sub, make_item, field, states, depth=3):
     for nm in names:
         field.fields[0].values[:] = states[nm]
         ref[nm] = (make_item().assemble.vector(field).toarray(), make_item().assemble.matrix(field).toarray())
-    ops = [(w, X) for w in ("vector", "matrix") for X in names + [None]]
+    # (`start`: the state a new item is in before it was ever given a field, if that is not the state the field holds at
+    #  construction -- items on their own boundary field start undeformed; it is not part of the call alphabet)
+    ops = [(w, X) for w in ("vector", "matrix") for X in [n_ for n_ in names if n_ != start] + [None]]
     nh = 0
     for d_ in range(1, depth + 1):
         for seq in itertools.product(range(len(ops)), repeat=d_):
             field.fields[0].values[:] = states[names[0]]
             item = make_item()
-            cur = names[0]
+            cur = names[0] if start is None else start
             for step, k in enumerate(seq):
                 w, X = ops[k]
                 if X is not None:
@@ -432,6 +434,52 @@ def run(case):
         e2 = np.abs(body.results.state.p - pc).max() / max(np.abs(pc).max(), 1e-9)
         if e2 > 1e-9:
             c.bad("settled-pressure", "cell pressures of the settled state vs K (v/V - 1)", float(e2), 0, 1e-9)
+        if case["amp"] > 0 and case["bulk"] == 5.0 and "units" not in case:
+            # call histories on ONE nearly-incompressible body: every sequence (<= 3) over {vector, matrix, evaluate.gradient,
+            # evaluate.cauchy_stress} x {field at state A, field at state B} (each given twice: settled) and {vector(), matrix()}
+            # without a field -- whatever the route by which the body was brought to its last state, vector and matrix must be
+            # those of a fresh body settled there
+            UA = field.fields[0].values.copy()
+            UB = UA * -0.6 + 0.3 * hm * zoo.offarr(seed, 1012, UA.shape)
+            refs = {}
+            for nm, U in (("A", UA), ("B", UB)):
+                field.fields[0].values[:] = U
+                fb = fem.SolidBodyNearlyIncompressible(um, field, bulk=case["bulk"])
+                refs[nm] = (Settled(fb).assemble.vector(field).toarray(), fb.assemble.matrix().toarray())
+            ops = [(w, X) for w in ("vector", "matrix", "gradient", "cauchy_stress") for X in ("A", "B")] + [("vector", None), ("matrix", None)]
+            nh = 0
+            for d_ in (1, 2, 3):
+                for seq in itertools.product(range(len(ops)), repeat=d_):
+                    if ops[seq[-1]][0] not in ("vector", "matrix"):
+                        continue  # (histories are judged at their last assembly)
+                    field.fields[0].values[:] = UA
+                    b2 = fem.SolidBodyNearlyIncompressible(um, field, bulk=case["bulk"])
+                    b2.assemble.vector(field)
+                    b2.assemble.vector(field)
+                    cur = "A"
+                    for step, k in enumerate(seq):
+                        w, X = ops[k]
+                        fn = getattr(b2.assemble if w in ("vector", "matrix") else b2.evaluate, w)
+                        if X is not None:
+                            field.fields[0].values[:] = UA if X == "A" else UB
+                            cur = X
+                            fn(field)
+                            got = fn(field)
+                        else:
+                            got = fn()
+                        c.trans += 1
+                        if w in ("vector", "matrix"):
+                            want = refs[cur][0 if w == "vector" else 1]
+                            got = got.toarray()
+                            sc = max(np.abs(want).max(), np.abs(refs[cur][1]).max() * 1e-6)
+                            if np.abs(got - want).max() > 1e-9 * sc:
+                                lab = " > ".join(f"{ops[i][0]}({'field@' + ops[i][1] + ' twice' if ops[i][1] else ''})" for i in seq[: step + 1])
+                                c.bad(f"history={lab}", f"{w} of a nearly-incompressible body after this call history differs from a fresh body settled at the last given state", float(np.abs(got - want).max() / sc), 0, 1e-9)
+                                break
+                    nh += 1
+            c.traces += nh
+            c.outcomes.add(f"ni-histories={nh}")
+            field.fields[0].values[:] = UA
         return c.result(dict(case=case["key"], unknowns=int(values_of(field).size)))
     if kind == "surface":
         ls, ms = case.get("units", (1.0, 1.0))
@@ -501,6 +549,10 @@ def run(case):
             c.traces += nh
             c.outcomes.add(f"pressure-item-histories={nh}")
             field.fields[0].values[:] = UA
+        if case["item"] == "cauchy" and case["face"] == "one" and case["mag"] == 0.7 and "units" not in case:
+            UA = field.fields[0].values.copy()
+            UB = UA + 0.3 * hm * zoo.offarr(seed, 1011, UA.shape)
+            item_history(c, "cauchy", lambda: fem.SolidBodyCauchyStress(boundary_field(case["mesh"], mesh, case["fk"], field, mask)[1], cauchy_stress=S), field, {"A": UA, "B": UB, "0": 0 * UA}, depth=2, start="0")
         c.outcomes.add(f"faces={rb.mesh.ncells}")
         return c.result(dict(case=case["key"], unknowns=int(values_of(field).size), boundary_cells=int(rb.mesh.ncells)))
     if kind == "mpc":
@@ -594,6 +646,11 @@ def run(case):
             c.bad("dead-load-matrix", "matrix of a dead load must be zero", float(np.abs(Kl).max()), 0)
         if Kl.shape != (values_of(field).size,) * 2:
             c.bad("dead-load-shape", "matrix shape of a dead load", list(Kl.shape), values_of(field).size)
+        UA = field.fields[0].values.copy()
+        UB = UA * -0.7 + 0.02 * hm
+        mk_ = {"pointload": lambda: fem.PointLoad(field, [1, 5, 3], values=np.arange(1, 3 * nd + 1, dtype=float).reshape(3, nd) / 7, axisymmetric=(fk == "axi")),
+               "force": lambda: fem.SolidBodyForce(field, values=vals, scale=1.5), "gravity": lambda: fem.SolidBodyGravity(field, gravity=vals, density=1.5)}[case["item"]]
+        item_history(c, case["item"], mk_, field, dict(A=UA, B=UB), depth=2)
         return c.result(dict(case=case["key"], unknowns=int(values_of(field).size)))
     if kind == "form":
         from felupe.math import ddot, dot, grad, trace, det, inv, transpose
